@@ -286,6 +286,26 @@ def r16_4(run):
 def r16_5(run):
     cr = TU(run, '_create_router')
     g = cfg_of(cr)
+    # the two collections are filled on BOTH delivery paths of a document: the initial "GETINFO ns/all" listing (lines fed
+    # straight to the parser by _bootstrap) and NEWCONSENSUS (_update_network_status).  The only code common to both is the
+    # parser's per-relay callback _create_router; filling them elsewhere must be reachable from both.
+    ts_ = TS(run)
+    for coll in ('self.guards', 'self.authorities'):
+        holders = []
+        for u in class_units(run.idx, ts_):
+            for n in walk_unit(u):
+                if isinstance(n, ast.Assign) and any(isinstance(t, ast.Subscript) and dotted(t.value) == coll for t in n.targets):
+                    holders.append(u)
+                if isinstance(n, ast.Assign) and any(dotted(t) == coll for t in n.targets) and isinstance(n.value, (ast.DictComp, ast.Call)) and not (
+                        isinstance(n.value, ast.Call) and not n.value.args and not n.value.keywords):
+                    holders.append(u)
+        if holders and cr not in holders:
+            bs = TU(run, '_bootstrap')
+            reach = set(x.qual for x in reach_units(run.idx, [bs]))
+            okb = any(h.qual in reach for h in holders)
+            run.ob('R16.5', holders[0], holders[0].node, '%s is filled for the initial relay listing too' % coll, okb, slot='filled-on-both-paths:%s' % coll,
+                   message='%s is only filled in %s, which the bootstrap listing (GETINFO ns/all fed line by line to the parser) never runs: until the first '
+                           'NEWCONSENSUS the collection is empty' % (coll, sorted(set(h.short for h in holders))))
     for coll, flag in (('self.guards', 'guard'), ('self.authorities', 'authority')):
         st = [n for n in g.real_nodes() if n.kind == 'stmt' and isinstance(n.ast, ast.Assign) and isinstance(n.ast.targets[0], ast.Subscript) and dotted(n.ast.targets[0].value) == coll]
         run.floor('R16.5', 'stores into %s' % coll, len(st), 1)
@@ -336,6 +356,14 @@ def r16_8(run):
                 ok = const(n.slice.lower) == 1 and n.slice.upper is None and not n.value.args
                 run.ob('R16.8', u, n, '%s takes every token after the keyword' % name, ok, slot='tokens:%s' % name,
                        message='%s takes %s: the first (or last) item of the line is lost - e.g. the Authority flag, which sorts first' % (name, src(n)))
+    bw = run.idx.find_method(pc, '_router_bandwidth')
+    for n in walk_unit(bw):
+        if isinstance(n, ast.Assign) and isinstance(n.targets[0], ast.Subscript) and const(n.targets[0].slice) == 'bandwidth':
+            bykey = any(isinstance(x, ast.Subscript) and const(x.slice) == 'Bandwidth' for x in ast.walk(n.value))
+            run.ob('R16.8', bw, n, 'the bandwidth is the value of the Bandwidth= keyword of the w line', bykey, slot='bandwidth-by-keyword',
+                   message='_router_bandwidth takes %s: on a line such as "w Bandwidth=20 Unmeasured=1" (dir-spec allows further keywords) another keyword\'s value is '
+                           'reported as the bandwidth' % src(n.value)[:50])
+            k += 1
     run.floor('R16.8', 'token slices in the line handlers', k, 3)
     un = TU(run, '_update_network_status')
     g = cfg_of(un)
@@ -371,6 +399,7 @@ RULES = [
 from ..selftest import M  # noqa: E402
 FT, FP, FR = 'txtorcon/torstate.py', 'txtorcon/_microdesc_parser.py', 'txtorcon/router.py'
 MUTANTS = [
+    M('bandwidth-last-equals', FP, "        args = data.split()[1:]\n        kw = find_keywords(args)\n        self._relay_attrs['bandwidth'] = kw['Bandwidth']", "        self._relay_attrs['bandwidth'] = data.rpartition('=')[2]", ['R16.8']),
     M('first-flag-lost', FP, "    def _router_flags(self, data):\n        args = data.split()[1:]", "    def _router_flags(self, data):\n        args = data.split()[2:]", ['R16.8']),
     M('dup-names-kept', FT, "        for k in remove_keys:\n            del self.routers[k]\n", "", ['R16.8']),
     M('ok-only-document-skipped', FT, "        if len(data):\n            self._old_routers = self.routers", "        if len(data) and data.strip() != 'OK':\n            self._old_routers = self.routers", ['R16.1']),
